@@ -7,8 +7,11 @@ import (
 	"bytes"
 	"errors"
 	"fmt"
+	"io"
 	"math/big"
 	"net"
+	"strings"
+	"time"
 
 	pt "gitlab.torproject.org/tpo/anti-censorship/pluggable-transports/goptlib"
 
@@ -775,10 +778,112 @@ func closeWithData(cfg *mc.Config, emit func(mc.Scenario)) {
 	}
 }
 
+// pausedSession: "all write sequences" includes their timing -- an established
+// connection that stays idle for longer than every timeout constant of the
+// handshake (30 s) and then carries data again, the pause being taken by the
+// real side before its write, or by the peer while the real side waits in Read.
+func pausedSession(cfg *mc.Config, emit func(mc.Scenario)) {
+	seed := cfg.Seed
+	pauses := []time.Duration{time.Second, 29 * time.Second, 2 * time.Second, 10 * time.Minute, 25 * time.Hour}
+	const blk = 300
+	for _, role := range []string{"client", "server"} {
+		for _, pauser := range []string{"real", "peer"} {
+			role, pauser := role, pauser
+			emit(mc.Scenario{Name: fmt.Sprintf("edge/%s/paused-session/%s-pauses", role, pauser), Weight: 10, Run: func(c *mc.Ctx) {
+				rnd.Install(rnd.New(seed, "c13-real-paused"))
+				refRnd := rnd.New(seed, "c13-ref-paused")
+				cw, sw := wire.Pipe("client", "server")
+				realWire, refWire := cw, sw
+				if role == "server" {
+					realWire, refWire = sw, cw
+				}
+				outbound := o4h.Pattern('O', 0, blk*len(pauses))
+				inbound := o4h.Pattern('I', 0, blk*len(pauses))
+				var got []byte
+				var rs *ref.Obfs3Session
+				var realErr, refErr error
+				failedAt, failedOp := -1, ""
+				res := sched.Run(c, sched.Options{NoPreempt: true, NoEarlyTimers: true, MaxSteps: 3_000_000}, func() {
+					s := sched.Cur()
+					s.Spawn("ref", func() {
+						var err error
+						rs, err = ref.Obfs3Handshake(refWire, ref.Obfs3Opts{Initiator: role == "server", Priv: refRnd.Bytes(192), Pad1: 5, Pad2: 7}, refRnd)
+						if err != nil {
+							refErr = err
+							refWire.Close()
+							return
+						}
+						for r := range pauses {
+							for len(rs.Got) < (r+1)*blk {
+								if _, err := rs.RecvOnce(); err != nil {
+									refErr = fmt.Errorf("round %d: %w", r, err)
+									return
+								}
+							}
+							if pauser == "peer" {
+								sched.Sleep(pauses[r])
+							}
+							if err := rs.Send(inbound[r*blk : (r+1)*blk]); err != nil {
+								refErr = fmt.Errorf("round %d: %w", r, err)
+								return
+							}
+						}
+					})
+					conn, err := realConn(role, realWire)
+					if err != nil {
+						realErr = err
+						return
+					}
+					b := make([]byte, blk)
+					for r := range pauses {
+						if pauser == "real" {
+							sched.Sleep(pauses[r])
+						}
+						if _, err := conn.Write(outbound[r*blk : (r+1)*blk]); err != nil {
+							realErr, failedAt, failedOp = err, r, "Write"
+							return
+						}
+						n, err := io.ReadFull(conn, b)
+						got = append(got, b[:n]...)
+						if err != nil {
+							realErr, failedAt, failedOp = err, r, "Read"
+							return
+						}
+					}
+				})
+				if len(res.Panics) > 0 {
+					fail(c, "no-panic", "panic/edge", "%s", res.Panics[0])
+					return
+				}
+				var sofar time.Duration
+				for r := 0; r <= failedAt; r++ {
+					sofar += pauses[r]
+				}
+				if failedAt >= 0 {
+					fail(c, "stream", "edge/paused-session/"+strings.ToLower(failedOp), "established %s connection, %s idle for %v (%v since the handshake): %s failed with %v", role, pauser, pauses[failedAt], sofar, failedOp, realErr)
+					return
+				}
+				if realErr != nil || refErr != nil {
+					fail(c, "handshake", "edge/handshake", "real=%v ref=%v", realErr, refErr)
+					return
+				}
+				c.Observe("out", fmt.Sprintf("got=%d peer-got=%d", len(got), len(rs.Got)))
+				if !bytes.Equal(got, inbound) {
+					fail(c, "stream", "edge/paused-session/inbound", "the peer wrote %d bytes over a session with pauses, the %s delivered %d (first difference at %d)", len(inbound), role, len(got), firstDiff(inbound, got))
+				}
+				if !bytes.Equal(rs.Got, outbound) {
+					fail(c, "stream", "edge/paused-session/outbound", "the %s wrote %d bytes over a session with pauses, the peer decoded %d (first difference at %d)", role, len(outbound), len(rs.Got), firstDiff(outbound, rs.Got))
+				}
+			}})
+		}
+	}
+}
+
 func main() {
 	mc.Main("C13", func(cfg *mc.Config, emit func(mc.Scenario)) {
 		scenarios(cfg, emit)
 		twoConnections(cfg, emit)
 		closeWithData(cfg, emit)
+		pausedSession(cfg, emit)
 	})
 }
